@@ -138,6 +138,10 @@ func runC09(seed uint64) {
 			elements = append(elements, <-vp.queue)
 		}
 	}
+	if drainMode != 0 {
+		// a drained queue is drained all the time, not only between the plan's operations
+		w.checks = append(w.checks, drain)
+	}
 	// in-flight windows: key -> list of [from,to) during which it is certainly being received
 	inflight := map[string][]struct{ from, to time.Duration }{}
 
